@@ -54,6 +54,7 @@ type tInst struct {
 	maxNow      time.Time // largest `now` of the calls of this instance that returned
 	bypassed    bool      // some call was answered without the store
 	cxSuspect   bool      // served by the store, then a call with an ended context returned, no store decision since
+	noscrOpen   bool      // the server answered NOSCRIPT to a call of this instance and has made no decision for the instance since
 	calls       []*tCall
 }
 
@@ -70,6 +71,7 @@ type tCall struct {
 	excused    bool          // (rescue) the instance had a reason to be cut off
 	stale      time.Duration // how far `now` lies before an earlier call of the instance
 	trouble    string        // tWorld.trouble when the call returned
+	noscr      int           // NOSCRIPT replies the server gave to this call
 }
 
 type tWorld struct {
@@ -99,6 +101,8 @@ type tWorld struct {
 	nExec       int
 	sGrants     int
 	rGrants     int
+	loss        *cacheLoss
+	lossBypass  bool // an instance answered beside the store after the server had told it NOSCRIPT
 }
 
 // bypassCause names why instances answer without the store, from what was observed.
@@ -108,6 +112,8 @@ func (w *tWorld) bypassCause(def string) string {
 		return "ttl-zero"
 	case w.scriptErr:
 		return "script-error"
+	case w.lossBypass:
+		return "script-cache-lost"
 	}
 	return def
 }
@@ -161,6 +167,15 @@ func (w *tWorld) onExec(e *simredis.Exec) {
 	}
 	if kind == 'e' {
 		if strings.HasPrefix(msg, "NOSCRIPT") {
+			// a healthy server that does not have the script (cold start, script cache lost): no
+			// decision, no failure - the script itself has to follow
+			if c != nil {
+				c.noscr++
+				c.in.noscrOpen = true
+			}
+			if w.loss.lost > 0 {
+				r.Probe("token-noscript-after-cache-loss")
+			}
 			return
 		}
 		w.scriptErr = true
@@ -307,6 +322,7 @@ func (w *tWorld) onExec(e *simredis.Exec) {
 			d = 'g'
 		}
 		c.execs = append(c.execs, tExec{dec: d, fault: e.Fault})
+		c.in.noscrOpen = false
 	}
 	if granted && lostReply(e.Fault) {
 		r.Probe("token-reply-lost-after-grant")
@@ -420,6 +436,7 @@ func (w *tWorld) finish(c *tCall) {
 				r.Probe("token-rescue-entered")
 			}
 			in.bypassed = true
+			in.noscrOpen = false // (a fault, not the NOSCRIPT reply, cut the instance off)
 			w.excuse(in, c.end.Add(excuseWindow))
 		} else {
 			def := "rescue-not-left"
@@ -431,6 +448,13 @@ func (w *tWorld) finish(c *tCall) {
 				// the only thing that happened to this instance is a caller whose context ended
 				def = "caller-context-ended"
 				how = fmt.Sprintf(" (context of this call: %v, ended: %v; an earlier call of the instance returned with an ended context: %v - a caller's context is no store outage)", c.cx.kind, c.cx.ended, in.cxSuspect)
+			}
+			if (c.noscr > 0 || in.noscrOpen) && !c.cx.ended {
+				// the reachable store told the instance that it does not have the script (any more)
+				// and the instance went on without the store instead of sending the script
+				def = "script-cache-lost"
+				w.lossBypass = true
+				how = fmt.Sprintf(" (the server answered NOSCRIPT %d time(s) to this call and has executed no token script for this instance since a NOSCRIPT reply; script cache lost %d time(s) so far in this run, data kept, store reachable - that is no store failure)", c.noscr, w.loss.lost)
 			}
 			w.note(4, "token-store-bypassed-store-reachable/"+w.bypassCause(def),
 				"rate %d burst %d: instance %d answered AllowN(now=%s, n=%d)=%v at %s without a decision of the store although the store is reachable and nothing failed for this instance in the last %v (final phase: %v; server answers to this call: %d)%s",
@@ -629,12 +653,19 @@ func tokenRun(r *simrt.Run, tier string, faulty bool) {
 		}
 	}
 	// (all members: calls whose context is due to end are stretched across that instant)
-	srv.Fault = cxFault(r, pol, func(task int) *cxPlan {
+	w.loss = drawCacheLoss(r, srv, faulty)
+	w.loss.onRestart = func() {
+		// a restart resets every connection: any instance may see a command fail
+		for _, in := range w.insts {
+			w.excuse(in, time.Now().Add(excuseWindow))
+		}
+	}
+	srv.Fault = w.loss.wrap(cxFault(r, pol, func(task int) *cxPlan {
 		if c := w.cur[task]; c != nil {
 			return c.cx
 		}
 		return nil
-	})
+	}))
 	often := cxOften(t)
 	key := "tl"
 	type client struct {
@@ -657,10 +688,12 @@ func tokenRun(r *simrt.Run, tier string, faulty bool) {
 	}
 	if r.Tracing() {
 		r.Logf("token: rate=%d burst=%d instances=%d clients=%d steps=%d faulty=%v transport=%v outages=%d offset=%v", w.rate, w.burst, nInst, len(clients), nSteps, faulty, transport, outages, offset)
+		r.Logf("token: script-cache-loss=%v", w.loss.sample())
 	}
 	if offset > 0 {
 		r.Sleep(offset)
 	}
+	lossTasks := w.loss.start()
 	call := func(tid int, in *tInst, n int, cx *cxPlan) *tCall {
 		c := &tCall{in: in, now: time.Now(), n: n, cx: cx}
 		c.start = c.now
@@ -793,6 +826,10 @@ func tokenRun(r *simrt.Run, tier string, faulty bool) {
 		r.Fail("stuck", "context cancellers did not return")
 		return
 	}
+	if !r.JoinTimeout(time.Hour, lossTasks...) {
+		r.Fail("stuck", "script-cache / restart controllers did not return")
+		return
+	}
 	// final phase: faults stopped, store reachable; after the recovery budget every
 	// instance must be served by the store again
 	faultsOn = false
@@ -830,6 +867,6 @@ func tokenRun(r *simrt.Run, tier string, faulty bool) {
 	}
 	r.Sample(map[string]any{"component": "TokenLimiter", "faulty": faulty, "rate": w.rate, "burst": w.burst, "instances": nInst, "client_tasks": len(clients),
 		"calls_per_task": nSteps, "transport_faults": transport, "outage_windows": outages, "initial_offset": offset.String(), "calls_with_own_context_per_24": often,
-		"calls": len(w.calls), "tokens_granted": grants, "script_executions": w.nExec, "local_grants": w.rGrants, "faults_fired": srv.FiredMap()})
+		"calls": len(w.calls), "tokens_granted": grants, "script_executions": w.nExec, "local_grants": w.rGrants, "script_cache_lost": w.loss.sample(), "faults_fired": srv.FiredMap()})
 	w.flush()
 }
